@@ -154,6 +154,51 @@ type cholNode struct {
 	c     *mat.Cholesky
 	acc   float64 // accumulated backward-error scale
 	steps int
+	// caches shared by all children (computed once per node)
+	U    *M      // snapshot of the factor
+	cond float64 // Cond() at snapshot time
+	inv  *M      // reference inverse of A
+	det  float64 // reference determinant of A
+}
+
+func (nd *cholNode) snapshot() {
+	if nd.U == nil {
+		var u mat.TriDense
+		nd.c.UTo(&u)
+		nd.U = fromMat(&u)
+		nd.cond = nd.c.Cond()
+	}
+}
+
+func (nd *cholNode) inverse() *M {
+	if nd.inv == nil {
+		inv, det, ok := invF64(nd.A)
+		if !ok {
+			panic("harness: state matrix not invertible")
+		}
+		nd.inv, nd.det = inv, det
+	}
+	return nd.inv
+}
+
+// sameFactor compares the factor held by c with a snapshot without allocating.
+func sameFactor(c *mat.Cholesky, U *M) bool {
+	r := c.RawU()
+	if r == nil {
+		return false
+	}
+	n, _ := r.Triangle()
+	if n != U.r {
+		return false
+	}
+	for i := 0; i < n; i++ {
+		for j := i; j < n; j++ {
+			if math.Float64bits(r.At(i, j)) != math.Float64bits(U.at(i, j)) {
+				return false
+			}
+		}
+	}
+	return true
 }
 
 type histCtx struct {
@@ -164,7 +209,60 @@ type histCtx struct {
 	failedKnown int
 	path        []string
 	outcomes    map[string]int64
+	second      int // the case explores only this operation at depth 2 (-1: all)
+	// reusable objects (per size) to keep the allocation rate down
+	freshC map[int]*mat.Cholesky
+	viaUC  map[int]*mat.Cholesky
+	symBuf map[int]*mat.SymDense
 }
+
+func (h *histCtx) out(cls string, mute bool) {
+	if !mute {
+		h.outcomes[cls]++
+	}
+}
+
+// fresh returns a factorization object that is re-used for every fresh factorization of size n
+// (re-factorizing on one receiver is itself covered by the reuse group) and the matrix to fill.
+func (h *histCtx) fresh(a *M) (*mat.Cholesky, bool) {
+	n := a.r
+	if h.freshC == nil {
+		h.freshC, h.viaUC, h.symBuf = map[int]*mat.Cholesky{}, map[int]*mat.Cholesky{}, map[int]*mat.SymDense{}
+	}
+	if h.freshC[n] == nil {
+		h.freshC[n], h.viaUC[n], h.symBuf[n] = new(mat.Cholesky), new(mat.Cholesky), mat.NewSymDense(n, nil)
+	}
+	sb := h.symBuf[n]
+	for i := 0; i < n; i++ {
+		for j := i; j < n; j++ {
+			sb.SetSym(i, j, a.at(i, j))
+		}
+	}
+	c := h.freshC[n]
+	return c, c.Factorize(sb)
+}
+
+// utuDefect returns max |UᵀU − A| for an upper triangular U without allocating.
+func utuDefect(U, A *M) float64 {
+	n := U.r
+	var worst float64
+	for i := 0; i < n; i++ {
+		for j := i; j < n; j++ {
+			var s float64
+			for k := 0; k <= i; k++ {
+				s += U.d[k*n+i] * U.d[k*n+j]
+			}
+			d := math.Abs(s - A.d[i*n+j])
+			if d > worst || d != d {
+				worst = d
+			}
+		}
+	}
+	return worst
+}
+
+// skip reports whether operation o at the given depth belongs to another case.
+func (h *histCtx) skip(o, depth int) bool { return depth == 2 && h.second >= 0 && o != h.second }
 
 func (h *histCtx) failf(class, format string, a ...any) {
 	// vlib keeps at most 8 sub-violations per case: at most 2 of them may be spent on
@@ -188,36 +286,50 @@ func (h *histCtx) failf(class, format string, a ...any) {
 	h.t.SubViolation(fmt.Sprint(h.path), class, map[string]any{"history": append([]string(nil), h.path...)}, "history %v: %s", h.path, msg)
 }
 
+// cholDepth is the history depth for a start family and size.
+func cholDepth(g *vlib.G, fam string, n int) int {
+	d := 5
+	if g.Thorough() && fam == "spd" && n <= 2 {
+		d = 6
+	}
+	if fam == "ident" && !g.Thorough() {
+		// exact arithmetic states (all factors are small dyadic numbers at first): the
+		// boundary operations are decided exactly by the implementation too. One level less in quick.
+		d = 4
+	}
+	return d
+}
+
 func genCholHist(g *vlib.G) {
 	for _, fam := range []string{"spd", "spd-dd", "ident"} {
-		depth := vlib.Pick(g, 4, 5)
-		if fam == "ident" {
-			// exact arithmetic states (all factors are small dyadic numbers at first): the
-			// boundary operations are decided exactly by the implementation too. One level less.
-			depth--
-		}
 		for n := 1; n <= 4; n++ {
+			depth := cholDepth(g, fam, n)
 			for o1 := range cholOps {
-				fam, n, o1, depth := fam, n, o1, depth
-				g.Case(fmt.Sprintf("chol-history start=%s n=%d first=%s depth<=%d", fam, n, cholOps[o1].name, depth), func(t *vlib.T) {
-					A := symMat(fam, n, 0)
-					var c mat.Cholesky
-					if !c.Factorize(repSym("sym", A)) {
-						t.Failf("start factorization failed")
-						return
-					}
-					h := &histCtx{t: t, maxDepth: depth, outcomes: map[string]int64{}}
-					root := &cholNode{A: A, c: &c, acc: float64(n) * maxAbs(A)}
-					h.cholStep(root, o1, 1)
-					t.Count("histories", h.nodes)
-					t.Count("chol_histories", h.nodes)
-					for k, v := range h.outcomes {
-						t.Count("chol_step:"+k, v)
-					}
-					t.Max("depth", int64(depth))
-					t.Nontrivial()
-					t.Outcome(fmt.Sprintf("downdate-rejected=%v extend-rejected=%v", h.outcomes["R-rejected"] > 0, h.outcomes["E-rejected"] > 0))
-				})
+				for o2 := range cholOps {
+					fam, n, o1, o2, depth := fam, n, o1, o2, depth
+					// one case = all histories that start with (o1, o2); the node of o1 alone is counted in the case o2 == 0
+					g.Case(fmt.Sprintf("chol-history start=%s n=%d first=%s second=%s depth<=%d", fam, n, cholOps[o1].name, cholOps[o2].name, depth), func(t *vlib.T) {
+						A := symMat(fam, n, 0)
+						var c mat.Cholesky
+						if !c.Factorize(repSym("sym", A)) {
+							t.Failf("start factorization failed")
+							return
+						}
+						h := &histCtx{t: t, maxDepth: depth, outcomes: map[string]int64{}, second: o2}
+						root := &cholNode{A: A, c: &c, acc: float64(n) * maxAbs(A)}
+						h.cholStep(root, o1, 1)
+						t.Count("histories", h.nodes)
+						t.Count("chol_histories", h.nodes)
+						for k, v := range h.outcomes {
+							t.Count("chol_step:"+k, v)
+						}
+						t.Max("depth", int64(depth))
+						if h.nodes > 0 {
+							t.Nontrivial()
+						}
+						t.Outcome(fmt.Sprintf("nodes>0=%v downdate-rejected=%v extend-rejected=%v singular-rejected=%v", h.nodes > 0, h.outcomes["R-rejected"] > 0, h.outcomes["E-rejected"] > 0, h.outcomes["E-singular-rejected"]+h.outcomes["R-singular-rejected"] > 0))
+					})
+				}
 			}
 		}
 	}
@@ -246,7 +358,11 @@ func (h *histCtx) cholStep(parent *cholNode, oi int, depth int) {
 	if op.kind == 'E' && n >= histMaxN {
 		return // not applicable (size bound); not a history
 	}
-	h.nodes++
+	// the depth-1 node is shared by the cases of all second operations: counted once
+	mute := depth == 1 && h.second > 0
+	if !mute {
+		h.nodes++
+	}
 	h.path = append(h.path, op.name)
 	defer func() { h.path = h.path[:len(h.path)-1] }()
 
@@ -254,10 +370,8 @@ func (h *histCtx) cholStep(parent *cholNode, oi int, depth int) {
 	// operations run on a Clone (Clone is itself an operation of the alphabet and is
 	// verified like every other step).
 	inPlace := (oi+depth)%2 == 0
-	var before mat.TriDense
-	parent.c.UTo(&before)
-	parentU := fromMat(&before)
-	parentCond := parent.c.Cond()
+	parent.snapshot()
+	parentU, parentCond := parent.U, parent.cond
 
 	var recv *mat.Cholesky
 	orig := parent.c
@@ -289,10 +403,7 @@ func (h *histCtx) cholStep(parent *cholNode, oi int, depth int) {
 		if op.boundary != nil {
 			want = 0 // by construction
 		} else if op.alpha < 0 {
-			inv, _, ok := invF64(parent.A)
-			if !ok {
-				panic("harness: parent not invertible")
-			}
+			inv := parent.inverse()
 			var q float64
 			for i := 0; i < n; i++ {
 				for j := 0; j < n; j++ {
@@ -334,7 +445,7 @@ func (h *histCtx) cholStep(parent *cholNode, oi int, depth int) {
 					h.failf("", "SymRankOne(%g,%v) on %s gives an exactly singular matrix but returned true with %s", op.alpha, x, fmtM(parent.A), bad)
 					return
 				}
-				h.outcomes["R-singular-accepted-by-rounding"]++
+				h.out("R-singular-accepted-by-rounding", mute)
 				return
 			}
 			cls = "R-singular-rejected"
@@ -371,7 +482,7 @@ func (h *histCtx) cholStep(parent *cholNode, oi int, depth int) {
 			vv = userVec{append([]float64(nil), v...)}
 		}
 		// positive definite iff k > wᵀA⁻¹w
-		inv, _, _ := invF64(parent.A)
+		inv := parent.inverse()
 		var q float64
 		for i := 0; i < n; i++ {
 			for j := 0; j < n; j++ {
@@ -407,7 +518,7 @@ func (h *histCtx) cholStep(parent *cholNode, oi int, depth int) {
 					h.failf("", "ExtendVecSym(%v) of %s is exactly singular but returned true with %s", v, fmtM(parent.A), bad)
 					return
 				}
-				h.outcomes["E-singular-accepted-by-rounding"]++
+				h.out("E-singular-accepted-by-rounding", mute)
 				return
 			}
 			cls = "E-singular-rejected"
@@ -466,12 +577,10 @@ func (h *histCtx) cholStep(parent *cholNode, oi int, depth int) {
 			return
 		}
 	}
-	h.outcomes[cls]++
+	h.out(cls, mute)
 
 	// the parent must be untouched whatever happened
-	var after mat.TriDense
-	parent.c.UTo(&after)
-	if maxAbs(subM(fromMat(&after), parentU)) != 0 || parent.c.Cond() != parentCond {
+	if !sameFactor(parent.c, parentU) || parent.c.Cond() != parentCond {
 		h.failf("", "%s modified the factorization it was given as orig", op.name)
 		return
 	}
@@ -480,9 +589,7 @@ func (h *histCtx) cholStep(parent *cholNode, oi int, depth int) {
 		// documented: "If the update fails the receiver is left unchanged" /
 		// "ExtendVecSym will return false and the receiver will not be updated"
 		if inPlace {
-			var u mat.TriDense
-			recv.UTo(&u)
-			if maxAbs(subM(fromMat(&u), parentU)) != 0 || recv.Cond() != parentCond {
+			if !sameFactor(recv, parentU) || recv.Cond() != parentCond {
 				h.failf("", "failed %s changed the receiver (in place)", op.name)
 				return
 			}
@@ -495,7 +602,9 @@ func (h *histCtx) cholStep(parent *cholNode, oi int, depth int) {
 		}
 		if depth < h.maxDepth && !terminal {
 			for o := range cholOps {
-				h.cholStep(parent, o, depth+1)
+				if !h.skip(o, depth+1) {
+					h.cholStep(parent, o, depth+1)
+				}
 			}
 		}
 		return
@@ -505,14 +614,24 @@ func (h *histCtx) cholStep(parent *cholNode, oi int, depth int) {
 	n2 := A2.r
 	fn := float64(n2)
 	node.acc = parent.acc + fn*(maxAbs(parent.A)+maxAbs(A2))
-	inv, detRef, okInv := invF64(A2)
-	if !okInv {
-		h.failf("", "harness: updated matrix not invertible %s", fmtM(A2))
-		return
+	var inv *M
+	var detRef float64
+	if A2 == parent.A {
+		// Clone / SetFromU: same matrix as the parent
+		inv = parent.inverse()
+		detRef = parent.det
+	} else {
+		var okInv bool
+		inv, detRef, okInv = invF64(A2)
+		if !okInv {
+			h.failf("", "harness: updated matrix not invertible %s", fmtM(A2))
+			return
+		}
 	}
+	node.inv, node.det = inv, detRef
 	kappa := normInf(A2) * normInf(inv)
 	if kappa > 1e9 {
-		h.outcomes["illcond-stop"]++
+		h.out("illcond-stop", mute)
 		return
 	}
 	if recv.SymmetricDim() != n2 {
@@ -522,18 +641,19 @@ func (h *histCtx) cholStep(parent *cholNode, oi int, depth int) {
 	var U mat.TriDense
 	recv.UTo(&U)
 	Um := fromMat(&U)
+	node.U, node.cond = Um, recv.Cond()
 	for i := 0; i < n2; i++ {
 		if !(Um.at(i, i) > 0) {
 			h.failf("", "U[%d,%d] = %v not positive after %s", i, i, Um.at(i, i), op.name)
 			return
 		}
 	}
-	if r := maxAbs(subM(mulM(Um.T(), Um), A2)) / (fn * eps * node.acc); r > tolResid || math.IsNaN(r) {
+	if r := utuDefect(Um, A2) / (fn * eps * node.acc); r > tolResid || math.IsNaN(r) {
 		h.failf("", "reconstruction ratio %.3g after %s: UᵀU=%s, updated matrix %s", r, op.name, fmtM(mulM(Um.T(), Um)), fmtM(A2))
 		return
 	}
-	var fresh mat.Cholesky
-	if !fresh.Factorize(repSym("sym", A2)) {
+	fresh, okFresh := h.fresh(A2)
+	if !okFresh {
 		h.failf("", "fresh factorization of the updated matrix %s failed", fmtM(A2))
 		return
 	}
@@ -564,7 +684,7 @@ func (h *histCtx) cholStep(parent *cholNode, oi int, depth int) {
 			return
 		}
 	default:
-		var viaU mat.Cholesky
+		viaU := h.viaUC[n2]
 		viaU.SetFromU(recv.RawU())
 		if recv.Cond() != viaU.Cond() {
 			h.failf("", "Cond = %v after %s, but SetFromU of the same factor reports %v", recv.Cond(), op.name, viaU.Cond())
@@ -589,7 +709,9 @@ func (h *histCtx) cholStep(parent *cholNode, oi int, depth int) {
 	}
 	if depth < h.maxDepth {
 		for o := range cholOps {
-			h.cholStep(node, o, depth+1)
+			if !h.skip(o, depth+1) {
+				h.cholStep(node, o, depth+1)
+			}
 		}
 	}
 }
@@ -628,27 +750,31 @@ type luNode struct {
 }
 
 func genLUHist(g *vlib.G) {
-	depth := vlib.Pick(g, 3, 4)
+	depth := vlib.Pick(g, 4, 5)
 	for _, fam := range []string{"dd", "pivot"} {
 		for n := 1; n <= 4; n++ {
 			for o1 := range luOps {
-				fam, n, o1 := fam, n, o1
-				g.Case(fmt.Sprintf("lu-history start=%s n=%d first=%s depth<=%d", fam, n, luOps[o1].name, depth), func(t *vlib.T) {
-					A := genMat(fam, n, n, 0)
-					var lu mat.LU
-					lu.Factorize(A.dense())
-					h := &histCtx{t: t, maxDepth: depth, outcomes: map[string]int64{}}
-					root := &luNode{A: A, lu: &lu, acc: float64(n) * maxAbs(A), root: A}
-					h.luStep(root, o1, 1)
-					t.Count("histories", h.nodes)
-					t.Count("lu_histories", h.nodes)
-					for k, v := range h.outcomes {
-						t.Count("lu_step:"+k, v)
-					}
-					t.Max("depth", int64(depth))
-					t.Nontrivial()
-					t.Outcome(fmt.Sprintf("breakdown-seen=%v", h.outcomes["no-fixed-pivot-LU-dontcare"] > 0))
-				})
+				for o2 := range luOps {
+					fam, n, o1, o2 := fam, n, o1, o2
+					g.Case(fmt.Sprintf("lu-history start=%s n=%d first=%s second=%s depth<=%d", fam, n, luOps[o1].name, luOps[o2].name, depth), func(t *vlib.T) {
+						A := genMat(fam, n, n, 0)
+						var lu mat.LU
+						lu.Factorize(A.dense())
+						h := &histCtx{t: t, maxDepth: depth, outcomes: map[string]int64{}, second: o2}
+						root := &luNode{A: A, lu: &lu, acc: float64(n) * maxAbs(A), root: A}
+						h.luStep(root, o1, 1)
+						t.Count("histories", h.nodes)
+						t.Count("lu_histories", h.nodes)
+						for k, v := range h.outcomes {
+							t.Count("lu_step:"+k, v)
+						}
+						t.Max("depth", int64(depth))
+						if h.nodes > 0 {
+							t.Nontrivial()
+						}
+						t.Outcome(fmt.Sprintf("nodes>0=%v breakdown-seen=%v", h.nodes > 0, h.outcomes["no-fixed-pivot-LU-dontcare"] > 0))
+					})
+				}
 			}
 		}
 	}
@@ -663,7 +789,10 @@ func luFresh(a *M) *mat.LU {
 func (h *histCtx) luStep(parent *luNode, oi int, depth int) {
 	op := luOps[oi]
 	n := parent.A.r
-	h.nodes++
+	mute := depth == 1 && h.second > 0
+	if !mute {
+		h.nodes++
+	}
 	h.path = append(h.path, op.name)
 	defer func() { h.path = h.path[:len(h.path)-1] }()
 
@@ -685,7 +814,7 @@ func (h *histCtx) luStep(parent *luNode, oi int, depth int) {
 		}
 	}
 	if !leadingMinorsNonzero(PA) {
-		h.outcomes["no-fixed-pivot-LU-dontcare"]++
+		h.out("no-fixed-pivot-LU-dontcare", mute)
 		return
 	}
 	// reference LU without row exchanges of PᵀA' and its growth
@@ -703,13 +832,13 @@ func (h *histCtx) luStep(parent *luNode, oi int, depth int) {
 	growth := absMulMax(Lr, Ur) / math.Max(maxAbs(A2), 1e-300)
 	inv, detRef, okInv := invF64(A2)
 	if !okInv {
-		h.outcomes["no-fixed-pivot-LU-dontcare"]++
+		h.out("no-fixed-pivot-LU-dontcare", mute)
 		return
 	}
 	kappa := normInf(A2) * normInf(inv)
 	if growth > 1e4 || kappa > 1e8 {
 		// LU without re-pivoting is not stable here: accuracy is a don't-care zone
-		h.outcomes["unstable-stop"]++
+		h.out("unstable-stop", mute)
 		return
 	}
 
@@ -827,7 +956,9 @@ func (h *histCtx) luStep(parent *luNode, oi int, depth int) {
 	}
 	if depth < h.maxDepth {
 		for o := range luOps {
-			h.luStep(node, o, depth+1)
+			if !h.skip(o, depth+1) {
+				h.luStep(node, o, depth+1)
+			}
 		}
 	}
 }
